@@ -2,6 +2,8 @@
 
 from __future__ import annotations
 
+import copy
+
 import itertools
 
 from hypothesis import strategies as st
@@ -30,6 +32,7 @@ RULE = (
     "operator."
 )
 RULE += (" " + 'Configurations also vary field-reference quoting per side (field_equals_field_escaping_quoting in all four settings; unquoted slots are delimited by the target language).')
+RULE += (" One case in four converts the same loaded rule object again: same configuration, a second configuration, and both once more; each result must equal what a freshly loaded rule gives.")
 ASSUMPTIONS = [
     "vf/ref (strings, modifiers, conditions, rules) is the Sigma specification",
     "atoms are independent: two sides are equivalent iff they are the same boolean function of the same predicates",
@@ -228,7 +231,55 @@ def check_case(case: dict) -> Outcome:
                     sig += ":structure"
             out.fail(sig, f"cfg={ {k: v for k, v in case['cfg'].items() if v != full_cfg(None).get(k)} } query {q!r} "
                           f"decodes to {show(got)}, expected {show(ref)}; differs at {env}; source {doc['detection']!r}"[:1500])
+    if case.get("cfg2") is not None and not out.failures:
+        _check_reuse(out, case, cfg, doc, queries)
     return out
+
+
+def _check_reuse(out, case, cfg, doc, queries):
+    """The same loaded rule object converted again - by the same configuration, by a backend with another configuration
+    and then by the first one once more (no pipeline is involved, so conversion does not change the rule): every result
+    must be what a freshly loaded rule gives for that configuration."""
+    from sigma.exceptions import SigmaError
+    from sigma.rule import SigmaRule
+
+    cfg2 = full_cfg(case["cfg2"])
+    out.label("same-rule-object-converted-again")
+
+    def run(c, rule):
+        try:
+            return ("ok", make_backend(c).convert_rule(rule))
+        except (SigmaError, NotImplementedError) as e:
+            return ("error", type(e).__name__)
+
+    try:
+        fresh2 = run(cfg2, SigmaRule.from_dict(copy.deepcopy(doc)))
+        rule = SigmaRule.from_dict(copy.deepcopy(doc))
+        steps = [("first", cfg, ("ok", queries)), ("other-configuration", cfg2, fresh2), ("first-again", cfg, ("ok", queries)), ("other-again", cfg2, fresh2)]
+        for name, c, want in steps:
+            got = run(c, rule)
+            if got != want:
+                out.fail("C01:same-object-converted-again:" + name, f"cfg={case['cfg']} cfg2={case['cfg2']}: step {name} on the same rule object gives {got}, a freshly loaded rule gives {want}; source {doc['detection']!r}"[:1500])
+                return
+        # a pipeline of another backend renames the fields of the very same rule object: what the first configuration then
+        # emits is the query of the renamed rule (= a fresh rule through the same pipeline), not a remembered one
+        from sigma.processing.pipeline import ProcessingPipeline
+
+        def pipe():
+            return ProcessingPipeline.from_dict({"transformations": [{"type": "field_name_suffix", "suffix": "_s2"}]})
+
+        def run_p(c, rule, p):
+            try:
+                return ("ok", make_backend(c, p).convert_rule(rule))
+            except (SigmaError, NotImplementedError) as e:
+                return ("error", type(e).__name__)
+        want = run_p(cfg, SigmaRule.from_dict(copy.deepcopy(doc)), pipe())
+        run_p(cfg2, rule, pipe())
+        got = run(cfg, rule)
+        if got != want:
+            out.fail("C01:same-object-converted-again:after-other-backends-pipeline", f"cfg={case['cfg']} cfg2={case['cfg2']}: after another backend's field suffix pipeline processed the rule object, the first configuration gives {got}; a fresh rule through that pipeline gives {want}; source {doc['detection']!r}"[:1500])
+    except RecursionError:
+        return
 
 
 # ---- generators ---------------------------------------------------------------------------------
@@ -241,7 +292,10 @@ def cases(draw, not_eq=None, big=False):
         doc = draw(gen.rule_docs(cfg))
     finally:
         gen.BIG[0] = False
-    return {"cfg": cfg, "doc": doc}
+    case = {"cfg": cfg, "doc": doc}
+    if not big and draw(st.integers(0, 3)) == 0:
+        case["cfg2"] = draw(gen.cfgs(not_eq=draw(st.booleans())))
+    return case
 
 
 @st.composite
